@@ -665,6 +665,12 @@ func (sc *SpecCtx) call(e *Expr) Value {
 				return v
 			}
 		}
+		// addrof(p.f): the address of a field of the object p points to (an embedded struct keeps its
+		// ghost state under its owner)
+		if len(e.Args) == 1 && e.Args[0].Op == "sel" && e.Args[0].Name != "*" {
+			a := sc.evalAddr(e.Args[0])
+			return Value{K: VAddr, A: &a, Ty: types.NewPointer(a.Ty)}
+		}
 		sc.fail("addrof() needs a local variable that lives in memory")
 	case "dynref": // dynref(x): the pointer held by interface value x
 		v := sc.eval(e.Args[0])
